@@ -9,8 +9,9 @@ EXTENDS ParserContract, Json, IOUtils, TLC
 
 Rec == ndJsonDeserialize(IOEnv.TRACE)
 VARIABLES l,
-          corr     \* <<corrupted?, line, first column, last column>> of the corrupted token (C08 s.2)
-tvars == <<cvars, l, corr>>
+          corr,    \* <<corrupted?, line, first column, last column>> of the corrupted token (C08 s.2)
+          expect   \* <<has expectation, items>>: the run must end cleanly with exactly these items (round trip, C03)
+tvars == <<cvars, l, corr, expect>>
 R == Rec[l]
 IsEv(e) == l <= Len(Rec) /\ R.ev = e /\ l' = l + 1
 
@@ -26,11 +27,12 @@ TBegin ==
   /\ Begin(IF R.group # "" THEN <<R.parser, R.lit, R.flag, R.group>> ELSE <<R.parser, R.lit, R.flag, R.input>>, R.input, R.limit, R.faulty, R.lines, R.ref,
            R.parser \in {"aig", "aig_parse"})
   /\ corr' = <<R.corrupt, R.cline, R.clo, R.chi>>
+  /\ expect' = <<R.has_expect, R.expect>>
 
-Skipping == skip /\ l <= Len(Rec) /\ R.ev # "reset" /\ l' = l + 1 /\ UNCHANGED <<cvars, corr>>
+Skipping == skip /\ l <= Len(Rec) /\ R.ev # "reset" /\ l' = l + 1 /\ UNCHANGED <<cvars, corr, expect>>
 
 TStep ==
-  /\ ~skip /\ UNCHANGED corr
+  /\ ~skip /\ UNCHANGED <<corr, expect>>
   /\ \/ IsEv("prebuf") /\ Prebuf(R.n)
      \/ IsEv("src") /\ Src(R.kind, R.n, R.offered)
      \/ IsEv("adv") /\ Adv(R.n, R.pos)
@@ -47,16 +49,16 @@ TStep ==
                                              /\ ((corr[1] /\ R.kind = "syntax") =>
                                                    (R.linen = corr[2] /\ R.coln >= corr[3] /\ R.coln <= corr[4]))
              [] OTHER                    -> FALSE                   \* "panic": no behaviour of any parser (C05)
-     \/ IsEv("pend") /\ End
+     \/ IsEv("pend") /\ End /\ (expect[1] => (Final = <<"end">> /\ items = expect[2]))
      \/ IsEv("heap") /\ HeapOk(R.peak, R.delivered, R.chunk, R.panic) /\ UNCHANGED cvars
 
 \* summary record of a streamed run (no per-event records: the input is tens of megabytes)
 TStream ==
   /\ IsEv("stream")
   /\ StreamOk(R.res, R.items, R.expected_items, R.chunk, R.max_item, R.peak, R.max_buf_len, R.max_buf_cap)
-  /\ UNCHANGED <<cvars, corr>>
+  /\ UNCHANGED <<cvars, corr, expect>>
 
-TInit == l = 1 /\ CInit /\ corr = <<FALSE, 0, 0, 0>>
+TInit == l = 1 /\ CInit /\ corr = <<FALSE, 0, 0, 0>> /\ expect = <<FALSE, <<>>>>
 TNext == TBegin \/ Skipping \/ TStep \/ TStream
 TSpec == TInit /\ [][TNext]_tvars
 
